@@ -1,6 +1,660 @@
-//! C19 — stub (to be implemented).
+//! C19 — CRAM indexing and region queries return exactly the scan-filtered records.
+//!
+//! Monitor: coordinate-sorted CRAM-mode streams (gencram, 1–4 references, unmapped tail) are written
+//! with the real writer to a scratch file with H3 (records per slice 3–50, ONE slice per container:
+//! the only layout the production writer emits). `cram::fs::index(path)` must succeed; its entries'
+//! (reference, start, span) are compared with the per-reference spans computed from the generator's
+//! descriptions (here) and its (container offset, landmark, slice length) with the geometry the
+//! independent container walker derives (`post` hook in py/props/c19.py, on the dumped files);
+//! region queries through `IndexedReader::query` (index in memory) and `Reader::query` (index after
+//! `crai::fs::write` + `crai::fs::read`) must return exactly the scan filter computed from the
+//! descriptions: same reference AND span intersects the region, each record once, in file order.
+
+use std::collections::{BTreeMap, BTreeSet};
+
+use gencram::{GenOpts, ReadDesc, Stream, rawwalk};
+use noodles_core::{Position, Region};
+use noodles_cram::{self as cram, crai};
+use noodles_sam::{self as sam, alignment::RecordBuf, alignment::io::Write as _};
+use serde_json::{Value as Json, json};
+use vcore::{CaseOut, Ctx, Report, Rng, guard, rng::fnv1a, run_cases};
+
+#[derive(Clone, Debug)]
+struct Case {
+    class: String,
+    gseed: u64,
+    opts: GenOpts,
+    rps: usize,
+    deltas: bool,
+    emap_none: bool,
+    regions: usize,
+}
+
+fn case_json(c: &Case) -> Json {
+    json!({"class": c.class, "gseed": c.gseed.to_string(), "records_per_slice": c.rps, "position_deltas": c.deltas,
+           "uncompressed_blocks": c.emap_none, "regions": c.regions, "opts": format!("{:?}", c.opts)})
+}
+
+fn rd(name: &str, flags: u16, ref_id: Option<usize>, pos: Option<usize>, cigar: &[(char, usize)], bases: &[u8]) -> ReadDesc {
+    ReadDesc {
+        name: Some(name.as_bytes().to_vec()),
+        flags,
+        ref_id,
+        pos,
+        mapq: if flags & gencram::F_UNMAPPED != 0 { None } else { Some(30) },
+        cigar: cigar.to_vec(),
+        bases: bases.to_vec(),
+        quals: vec![30; bases.len()],
+        mate_ref: None,
+        mate_pos: None,
+        tlen: 0,
+        tags: Vec::new(),
+        edits: Vec::new(),
+        features: Default::default(),
+        template: 0,
+        mate: None,
+    }
+}
+
+const DET: &[&str] = &["det:two-references-in-one-slice", "det:overlapping-coordinates-on-two-references", "det:mapped-then-unplaced-in-one-slice", "det:single-reference-two-containers"];
+
+fn det_stream(name: &str) -> (Stream, usize) {
+    let refs = vec![
+        gencram::RefSeq { name: "sq0".into(), seq: b"ACGTACGTTTGACCAGTNNACGGATCAGCTAGCATCGACTAGCATCGGGATATCCGAT".to_vec(), with_m5: false },
+        gencram::RefSeq { name: "sq1".into(), seq: b"TTGACGATCGGCTATATAGCGCGATCGATCGGGCATACGACTAGCAAAACGT".to_vec(), with_m5: true },
+    ];
+    let (mut reads, rps) = match name {
+        // the probe of DESIGN.md section 1: 2+2 records on two references inside one slice
+        "det:two-references-in-one-slice" => (
+            vec![
+                rd("a0", 0, Some(0), Some(1), &[('M', 8)], b"ACGTACGT"),
+                rd("a1", 0, Some(0), Some(5), &[('M', 8)], b"ACGTTTGA"),
+                rd("b0", 0, Some(1), Some(3), &[('M', 8)], b"GACGATCG"),
+                rd("b1", 0, Some(1), Some(30), &[('M', 8)], b"GGGCATAC"),
+            ],
+            10,
+        ),
+        "det:overlapping-coordinates-on-two-references" => (
+            vec![
+                rd("a0", 0, Some(0), Some(3), &[('M', 8)], b"GTACGTTT"),
+                rd("b0", 0, Some(1), Some(3), &[('M', 8)], b"GACGATCG"),
+                rd("b1", 0, Some(1), Some(4), &[('M', 8)], b"ACGATCGG"),
+            ],
+            3,
+        ),
+        "det:mapped-then-unplaced-in-one-slice" => (
+            vec![
+                rd("a0", 0, Some(0), Some(1), &[('M', 8)], b"ACGTACGT"),
+                rd("a1", 0, Some(0), Some(5), &[('M', 8)], b"ACGTTTGA"),
+                rd("u0", gencram::F_UNMAPPED, None, None, &[], b"GGGGTTTT"),
+            ],
+            5,
+        ),
+        "det:single-reference-two-containers" => (
+            vec![
+                rd("a0", 0, Some(0), Some(1), &[('M', 8)], b"ACGTACGT"),
+                rd("a1", 0, Some(0), Some(5), &[('M', 4), ('D', 3), ('M', 4)], b"ACGTGACC"),
+                rd("a2", 0, Some(0), Some(9), &[('M', 8)], b"TTGACCAG"),
+                rd("a3", 0, Some(0), Some(21), &[('M', 8)], b"CGGATCAG"),
+            ],
+            2,
+        ),
+        _ => panic!("unknown deterministic case {name}"),
+    };
+    for (i, r) in reads.iter_mut().enumerate() {
+        r.template = i;
+    }
+    (Stream { refs, read_groups: vec![], reads }, rps)
+}
+
+fn gen_cases(ctx: &Ctx) -> Vec<Case> {
+    let mut cases = Vec::new();
+    for name in DET {
+        cases.push(Case { class: name.to_string(), gseed: 0, opts: GenOpts::default(), rps: 0, deltas: true, emap_none: false, regions: 40 });
+    }
+    let n = ctx.budget("cases", 300, 6000);
+    let regions = ctx.budget("regions", 40, 40) as usize;
+    let mut rng = Rng::new(ctx.seed, 0xC19, 0);
+    for _ in 0..n {
+        let mut o = GenOpts::default();
+        o.sorted = true;
+        o.n_refs = rng.urange(1, 4);
+        o.ref_len = (rng.urange(30, 100), rng.urange(100, 900));
+        o.n_templates = 2 + rng.skewed(160) as usize;
+        o.iupac_ref = rng.chance(1, 5);
+        o.single_ref_reads = rng.chance(2, 5);
+        o.pm_pair = *rng.pick(&[0, 200, 500]);
+        o.pm_unmapped_single = *rng.pick(&[0, 0, 50, 150, 300]);
+        o.max_read_len = *rng.pick(&[8, 30, 80]);
+        o.max_skip = *rng.pick(&[10, 120, 400]);
+        o.pm_tags = 300;
+        cases.push(Case {
+            class: "rand".into(),
+            gseed: rng.next_u64(),
+            opts: o,
+            rps: rng.urange(3, 50),
+            deltas: rng.bool(),
+            emap_none: rng.chance(1, 4),
+            regions,
+        });
+    }
+    cases
+}
+
+fn build_stream(c: &Case) -> (Stream, usize) {
+    if c.class.starts_with("det:") {
+        det_stream(&c.class)
+    } else {
+        let mut rng = Rng::new(c.gseed, 0x5EED, 0);
+        (gencram::gen_stream(&mut rng, &c.opts), c.rps)
+    }
+}
+
+/// What the index must say about one slice, from the descriptions: one entry per reference
+/// (`None` = unplaced records), with the inclusive span of the records on it. `exact` is false
+/// when placed unmapped records take part (the statement does not define their span).
+#[derive(Clone, Debug, PartialEq, Eq)]
+struct RefSpan {
+    ref_id: Option<usize>,
+    start: usize,
+    end: usize,
+    exact: bool,
+}
+
+fn expected_entries(slice: &[ReadDesc]) -> (Vec<RefSpan>, &'static str) {
+    let mut m: BTreeMap<Option<usize>, RefSpan> = BTreeMap::new();
+    for r in slice {
+        let placed = r.ref_id.is_some() && r.pos.is_some();
+        let key = if placed { r.ref_id } else { None };
+        let (s, e, exact) = match (placed, r.span()) {
+            (true, Some((s, e))) => (s, e, true),
+            (true, None) => (r.pos.unwrap(), r.pos.unwrap(), false),
+            _ => (0, 0, true),
+        };
+        let ent = m.entry(key).or_insert(RefSpan { ref_id: key, start: usize::MAX, end: 0, exact: true });
+        if key.is_some() {
+            ent.start = ent.start.min(s);
+            ent.end = ent.end.max(e);
+            ent.exact &= exact;
+        } else {
+            ent.start = 0;
+        }
+    }
+    let kind = match gencram::slice_context(slice) {
+        gencram::SliceCtx::Single { .. } => "single-reference-slice",
+        gencram::SliceCtx::Unmapped => "unmapped-slice",
+        gencram::SliceCtx::Multi => "multi-reference-slice",
+    };
+    (m.into_values().collect(), kind)
+}
+
+fn key_of_desc(r: &ReadDesc) -> (Vec<u8>, u16) {
+    (r.name.clone().unwrap_or_default(), r.flags & 0xC0)
+}
+
+fn key_of_buf(r: &RecordBuf) -> (Vec<u8>, u16) {
+    (r.name().map(|n| n.to_vec()).unwrap_or_default(), u16::from(r.flags()) & 0xC0)
+}
+
+#[derive(Clone, Debug)]
+struct Reg {
+    ref_id: usize,
+    /// inclusive 1-based bounds; None = unbounded
+    start: Option<usize>,
+    end: Option<usize>,
+    kind: &'static str,
+}
+
+impl Reg {
+    fn to_region(&self, s: &Stream) -> Region {
+        let name = s.refs[self.ref_id].name.as_bytes().to_vec();
+        let p = |x: usize| Position::new(x).expect("position > 0");
+        match (self.start, self.end) {
+            (None, None) => Region::new(name, ..),
+            (Some(a), None) => Region::new(name, p(a)..),
+            (None, Some(b)) => Region::new(name, ..=p(b)),
+            (Some(a), Some(b)) => Region::new(name, p(a)..=p(b)),
+        }
+    }
+    fn render(&self, s: &Stream) -> String {
+        format!("{}:{}-{} ({})", s.refs[self.ref_id].name, self.start.map(|x| x.to_string()).unwrap_or_default(), self.end.map(|x| x.to_string()).unwrap_or_default(), self.kind)
+    }
+}
+
+fn gen_regions(rng: &mut Rng, s: &Stream, n: usize) -> Vec<Reg> {
+    let mut out = Vec::new();
+    let mapped: Vec<&ReadDesc> = s.reads.iter().filter(|r| r.span().is_some()).collect();
+    // whole references (by name only), incl. references without records
+    for i in 0..s.refs.len() {
+        out.push(Reg { ref_id: i, start: None, end: None, kind: "whole-reference" });
+    }
+    while out.len() < n {
+        let k = rng.below(12);
+        if mapped.is_empty() || k == 11 {
+            let rid = rng.usize_below(s.refs.len());
+            let len = s.refs[rid].seq.len();
+            let a = rng.urange(1, len);
+            let b = rng.urange(a, len);
+            out.push(Reg { ref_id: rid, start: Some(a), end: Some(b), kind: "random-window" });
+            continue;
+        }
+        let r = *rng.pick(&mapped);
+        let (a, b) = r.span().unwrap();
+        let rid = r.ref_id.unwrap();
+        let len = s.refs[rid].seq.len();
+        let reg = match k {
+            0 => Reg { ref_id: rid, start: Some(a), end: Some(b), kind: "own-span" },
+            1 if a > 1 => Reg { ref_id: rid, start: Some(a - 1), end: Some(a - 1), kind: "point-before-start" },
+            2 => Reg { ref_id: rid, start: Some(b + 1), end: Some(b + 1), kind: "point-after-end" },
+            3 => Reg { ref_id: rid, start: Some(a), end: Some(a), kind: "point-at-start" },
+            4 => Reg { ref_id: rid, start: Some(b), end: Some(b), kind: "point-at-end" },
+            5 => Reg { ref_id: rid, start: None, end: Some(a), kind: "unbounded-start" },
+            6 => Reg { ref_id: rid, start: Some(b), end: None, kind: "unbounded-end" },
+            7 if a > 1 => Reg { ref_id: rid, start: None, end: Some(a - 1), kind: "unbounded-start-before" },
+            8 => Reg { ref_id: rid, start: Some(b + 1), end: None, kind: "unbounded-end-after" },
+            9 => {
+                // the same coordinates on another reference
+                let other = (rid + 1) % s.refs.len();
+                Reg { ref_id: other, start: Some(a), end: Some(b), kind: "own-span-on-other-reference" }
+            }
+            10 => Reg { ref_id: rid, start: Some(len + 1), end: Some(len + 50), kind: "beyond-reference-end" },
+            _ => Reg { ref_id: rid, start: Some(a), end: Some(b.max(a + rng.skewed(60) as usize)), kind: "span-extended" },
+        };
+        out.push(reg);
+    }
+    out
+}
+
+fn scan_filter<'a>(s: &'a Stream, g: &Reg) -> Vec<&'a ReadDesc> {
+    s.reads
+        .iter()
+        .filter(|r| {
+            let Some((a, b)) = r.span() else { return false };
+            r.ref_id == Some(g.ref_id) && g.start.map(|x| b >= x).unwrap_or(true) && g.end.map(|y| a <= y).unwrap_or(true)
+        })
+        .collect()
+}
+
+fn classify_error(m: &str) -> String {
+    let mut s = guard::normalise_message(m);
+    if s.len() > 90 {
+        s.truncate(90);
+    }
+    s
+}
+
+fn run_queries(
+    c: &Case,
+    s: &Stream,
+    path: &std::path::Path,
+    index: &crai::Index,
+    via: &str,
+    regions: &[Reg],
+    o: &mut CaseOut,
+    has_multi: bool,
+) {
+    let by_key: BTreeMap<(Vec<u8>, u16), &ReadDesc> = s.reads.iter().map(|r| (key_of_desc(r), r)).collect();
+    let order: BTreeMap<(Vec<u8>, u16), usize> = s.reads.iter().enumerate().map(|(i, r)| (key_of_desc(r), i)).collect();
+    let layout = if has_multi { "file-with-multi-reference-slice" } else { "single-reference-slices-only" };
+    let mut seen: BTreeSet<String> = BTreeSet::new();
+    for g in regions {
+        let region = g.to_region(s);
+        let repo = s.repository();
+        let res = guard::catch(|| -> std::io::Result<Vec<RecordBuf>> {
+            if via == "indexed-reader" {
+                let mut r = cram::io::indexed_reader::Builder::default()
+                    .set_reference_sequence_repository(repo)
+                    .set_index(index.clone())
+                    .build_from_path(path)?;
+                let header = r.read_header()?;
+                let q = r.query(&header, &region)?;
+                q.records().collect()
+            } else {
+                let mut r = cram::io::reader::Builder::default().set_reference_sequence_repository(repo).build_from_path(path)?;
+                let header = r.read_header()?;
+                let q = r.query(&header, index, &region)?;
+                q.records().collect()
+            }
+        });
+        o.count("queries", 1);
+        o.count(&format!("queries[{}]", g.kind), 1);
+        let mut push = |o: &mut CaseOut, sig: String, desc: String| {
+            if seen.insert(sig.clone()) {
+                o.violation(sig, desc);
+            }
+        };
+        let got = match res {
+            Err(p) => {
+                push(o, format!("query:panic:{layout}:{}", p.sig), format!("query {} via {via} panicked: {}", g.render(s), p.message));
+                continue;
+            }
+            Ok(Err(e)) => {
+                push(o, format!("query:error:{layout}:{}", classify_error(&e.to_string())), format!("query {} via {via} failed: {e}", g.render(s)));
+                continue;
+            }
+            Ok(Ok(v)) => v,
+        };
+        let want = scan_filter(s, g);
+        if !want.is_empty() {
+            o.count("queries_with_nonempty_answer", 1);
+        }
+        // placed unmapped records have no alignment: whether a region "intersects" them is not
+        // defined by the statement; they are tolerated either way
+        let got_keys: Vec<(Vec<u8>, u16)> = got
+            .iter()
+            .map(key_of_buf)
+            .filter(|k| {
+                let placed_unmapped = by_key.get(k).map(|r| r.is_unmapped() && r.pos.is_some()).unwrap_or(false);
+                if placed_unmapped {
+                    o.count("placed_unmapped_records_returned_by_queries (tolerated)", 1);
+                }
+                !placed_unmapped
+            })
+            .collect();
+        let want_keys: Vec<(Vec<u8>, u16)> = want.iter().map(|r| key_of_desc(r)).collect();
+        o.count("records_returned", got_keys.len() as u64);
+        if got_keys == want_keys {
+            continue;
+        }
+        let gs: BTreeSet<_> = got_keys.iter().cloned().collect();
+        let ws: BTreeSet<_> = want_keys.iter().cloned().collect();
+        let name = |k: &(Vec<u8>, u16)| String::from_utf8_lossy(&k.0).to_string();
+        let ctx_desc = format!("query {} via {via} (index from {}): expected {:?}, got {:?}", g.render(s), c.class, want_keys.iter().map(name).collect::<Vec<_>>(), got_keys.iter().map(name).collect::<Vec<_>>());
+        let mut explained = false;
+        for k in gs.difference(&ws) {
+            explained = true;
+            match by_key.get(k) {
+                None => push(o, "query:returns-unknown-record".into(), format!("record {:?} was never written; {ctx_desc}", name(k))),
+                Some(r) if r.ref_id != Some(g.ref_id) => push(
+                    o,
+                    format!("query:returns-record-of-other-reference:{layout}"),
+                    format!("record {:?} lies on {} ; {ctx_desc}; written: {}", name(k), r.ref_id.map(|i| s.refs[i].name.clone()).unwrap_or("*".into()), r.sam_line(&s.refs)),
+                ),
+                Some(r) => push(
+                    o,
+                    format!("query:returns-non-intersecting-record:{}", g.kind),
+                    format!("record {:?} spans {:?}; {ctx_desc}; written: {}", name(k), r.span(), r.sam_line(&s.refs)),
+                ),
+            }
+        }
+        for k in ws.difference(&gs) {
+            explained = true;
+            let r = by_key[k];
+            push(o, format!("query:misses-record:{layout}:{}", g.kind), format!("record {:?} spans {:?}; {ctx_desc}; written: {}", name(k), r.span(), r.sam_line(&s.refs)));
+        }
+        if got_keys.len() != gs.len() {
+            explained = true;
+            push(o, format!("query:duplicate-record:{layout}"), ctx_desc.clone());
+        }
+        if !explained {
+            let idx: Vec<usize> = got_keys.iter().map(|k| order[k]).collect();
+            if idx.windows(2).any(|w| w[0] > w[1]) {
+                push(o, format!("query:not-in-file-order:{layout}"), ctx_desc.clone());
+            } else {
+                push(o, "query:differs".into(), ctx_desc.clone());
+            }
+        }
+    }
+}
+
+fn run_case(ctx: &Ctx, idx: u64, c: &Case) -> CaseOut {
+    let mut o = CaseOut::new();
+    let (s, rps) = build_stream(c);
+    let header: sam::Header = s.header();
+    let records = s.record_bufs();
+    let dump = ctx.work.join("dump");
+    let _ = std::fs::create_dir_all(&dump);
+    let path = dump.join(format!("{idx}.cram"));
+    let repo = s.repository();
+    let w = guard::catch(|| -> std::io::Result<()> {
+        let mut b = cram::io::writer::Builder::default()
+            .set_reference_sequence_repository(repo)
+            .encode_alignment_start_positions_as_deltas(c.deltas)
+            .verif_set_layout(rps, 1);
+        if c.emap_none {
+            let mut m = cram::container::BlockContentEncoderMap::builder().set_core_data_encoder(None).set_default_encoder(None);
+            for ds in ALL_SERIES {
+                m = m.set_data_series_encoder(ds, None);
+            }
+            b = b.set_block_content_encoder_map(m.build());
+        }
+        let mut w = b.build_from_path(&path)?;
+        w.write_header(&header)?;
+        for r in &records {
+            w.write_alignment_record(&header, r)?;
+        }
+        w.try_finish(&header)?;
+        Ok(())
+    });
+    match w {
+        Err(p) => {
+            o.count(&format!("writer_panics[{}]", p.sig), 1);
+            let _ = std::fs::remove_file(&path);
+            return o;
+        }
+        Ok(Err(e)) => {
+            o.count(&format!("writer_rejected[{}]", classify_error(&e.to_string())), 1);
+            let _ = std::fs::remove_file(&path);
+            return o;
+        }
+        Ok(Ok(())) => {}
+    }
+    o.count("files_written", 1);
+    o.count("records_written", s.reads.len() as u64);
+
+    // expectations from the descriptions
+    let slices: Vec<&[ReadDesc]> = s.reads.chunks(rps).collect();
+    let exp: Vec<(Vec<RefSpan>, &str)> = slices.iter().map(|sl| expected_entries(sl)).collect();
+    let has_multi = exp.iter().any(|e| e.1 == "multi-reference-slice");
+    let mut kinds_mask = 0u32;
+    for e in &exp {
+        o.count(&format!("slices[{}]", e.1), 1);
+        kinds_mask |= match e.1 {
+            "single-reference-slice" => 1,
+            "unmapped-slice" => 2,
+            _ => 4,
+        };
+    }
+    if slices.len() > 1 {
+        o.count("files_with_several_containers", 1);
+    }
+    if has_multi {
+        o.count("files_with_multi_reference_slice", 1);
+    }
+    if s.reads.iter().any(|r| r.ref_id.is_none()) {
+        o.count("files_with_unplaced_tail", 1);
+    }
+
+    // sidecar for the walker (same format as C07) + expected index entries per slice
+    let side = json!({
+        "records": s.reads.len(),
+        "refs": s.refs.iter().map(|r| json!({"name": r.name, "seq": String::from_utf8_lossy(&r.seq)})).collect::<Vec<_>>(),
+        "expected_index": exp.iter().map(|(v, kind)| json!({"kind": kind, "entries": v.iter().map(|e| json!({
+            "ref": e.ref_id.map(|x| x as i64).unwrap_or(-1), "start": e.start, "span": if e.ref_id.is_some() { e.end - e.start + 1 } else { 0 }, "exact": e.exact})).collect::<Vec<_>>()})).collect::<Vec<_>>(),
+        "case": case_json(c),
+    });
+    std::fs::write(dump.join(format!("{idx}.json")), serde_json::to_vec(&side).unwrap()).expect("sidecar");
+
+    // index
+    let layout = if has_multi { "file-with-multi-reference-slice" } else { "single-reference-slices-only" };
+    let built = guard::catch(|| cram::fs::index(&path));
+    let (index, source): (crai::Index, &str) = match built {
+        Ok(Ok(ix)) => {
+            o.count("indexes_built", 1);
+            (ix, "noodles")
+        }
+        other => {
+            match other {
+                Err(p) => o.violation(format!("index:panic:{layout}:{}", p.sig), format!("cram::fs::index panicked on a sorted noodles-written file ({} records, {} slices of <= {rps} records): {}", s.reads.len(), slices.len(), p.message)),
+                Ok(Err(e)) => o.violation(format!("index:error:{layout}:{}", classify_error(&e.to_string())), format!("cram::fs::index failed on a sorted noodles-written file: {e}")),
+                _ => unreachable!(),
+            }
+            // Stand-in index (walker geometry + expected spans) so that the query half of the
+            // property is still evaluated on this file.
+            let bytes = std::fs::read(&path).expect("read back scratch file");
+            let Some(geom) = rawwalk::geometry(&bytes) else {
+                o.inconclusive.push("stand-in index: could not derive the geometry of the written file".into());
+                return o;
+            };
+            if geom.len() != exp.len() || geom.iter().any(|g| g.slices.len() != 1) {
+                o.inconclusive.push(format!("stand-in index: {} containers for {} expected slices", geom.len(), exp.len()));
+                return o;
+            }
+            let mut ix = Vec::new();
+            for (g, (ents, _)) in geom.iter().zip(&exp) {
+                for e in ents {
+                    ix.push(crai::Record::new(e.ref_id, if e.ref_id.is_some() { Position::new(e.start) } else { None }, if e.ref_id.is_some() { e.end - e.start + 1 } else { 0 }, g.offset, g.slices[0].landmark, g.slices[0].length));
+                }
+            }
+            o.count("stand_in_indexes_used", 1);
+            (ix, "stand-in")
+        }
+    };
+
+    if source == "noodles" {
+        // (reference, start, span) per slice against the descriptions; entries are grouped by
+        // container offset (one slice per container)
+        let mut groups: Vec<Vec<&crai::Record>> = Vec::new();
+        for r in &index {
+            match groups.last_mut() {
+                Some(g) if g[0].offset() == r.offset() && g[0].landmark() == r.landmark() => g.push(r),
+                _ => groups.push(vec![r]),
+            }
+        }
+        o.count("index_entries", index.len() as u64);
+        if groups.len() != exp.len() {
+            o.violation(format!("index:slice-count:{layout}"), format!("the index lists {} slices, {} were written", groups.len(), exp.len()));
+        } else {
+            let mut seen = BTreeSet::new();
+            for (k, (g, (ents, kind))) in groups.iter().zip(&exp).enumerate() {
+                o.count("index_slices_compared", 1);
+                let got: BTreeSet<(Option<usize>, usize, usize)> = g.iter().map(|r| (r.reference_sequence_id(), r.alignment_start().map(usize::from).unwrap_or(0), r.alignment_span())).collect();
+                let want: BTreeSet<(Option<usize>, usize, usize)> = ents.iter().map(|e| (e.ref_id, e.start, if e.ref_id.is_some() { e.end - e.start + 1 } else { 0 })).collect();
+                let exact = ents.iter().all(|e| e.exact);
+                let ok = if exact {
+                    got == want && got.len() == g.len()
+                } else {
+                    // placed unmapped records: the entry must at least cover the expected span
+                    got.len() == want.len()
+                        && got.iter().zip(&want).all(|(a, b)| a.0 == b.0 && (a.0.is_none() || (a.1 <= b.1 && a.1 + a.2 >= b.1 + b.2)))
+                };
+                if !ok {
+                    let what = if got.len() != want.len() || g.len() != got.len() {
+                        "entry-count"
+                    } else if got.iter().map(|x| x.0).collect::<Vec<_>>() != want.iter().map(|x| x.0).collect::<Vec<_>>() {
+                        "reference"
+                    } else {
+                        "span"
+                    };
+                    let sig = format!("index:{what}:{kind}");
+                    if seen.insert(sig.clone()) {
+                        o.violation(sig, format!("slice #{k}: index entries (ref, start, span) {got:?}, the records of the slice cover {want:?}"));
+                    }
+                }
+            }
+        }
+        // index file round trip
+        let cpath = dump.join(format!("{idx}.crai"));
+        let rt = guard::catch(|| -> std::io::Result<crai::Index> {
+            crai::fs::write(&cpath, &index)?;
+            crai::fs::read(&cpath)
+        });
+        match rt {
+            Err(p) => o.violation(format!("crai:panic:{}", p.sig), format!("crai write/read panicked: {}", p.message)),
+            Ok(Err(e)) => o.violation(format!("crai:error:{}", classify_error(&e.to_string())), format!("crai::fs::write/read failed: {e}")),
+            Ok(Ok(back)) => {
+                o.count("index_files_round_tripped", 1);
+                if back != index {
+                    let at = back.iter().zip(&index).position(|(a, b)| a != b).unwrap_or(back.len().min(index.len()));
+                    o.violation("crai:roundtrip-differs", format!("index of {} entries reads back with {} entries; first difference at entry {at}: {:?} vs {:?}", index.len(), back.len(), index.get(at), back.get(at)));
+                }
+            }
+        }
+    }
+
+    // queries
+    let mut rng = Rng::new(c.gseed ^ 0xA11CE, 0xC19, idx);
+    let regions = gen_regions(&mut rng, &s, c.regions);
+    let half = regions.len() / 2;
+    run_queries(c, &s, &path, &index, "indexed-reader", &regions[..half], &mut o, has_multi);
+    let index2 = if source == "noodles" { crai::fs::read(dump.join(format!("{idx}.crai"))).unwrap_or_else(|_| index.clone()) } else { index.clone() };
+    run_queries(c, &s, &path, &index2, "reader-query-with-reread-index", &regions[half..], &mut o, has_multi);
+    o.count(&format!("files_queried_through_{source}_index"), 1);
+
+    o.evaluations = 1;
+    o.fp = fnv1a(format!("{kinds_mask}|{}|{}|{}|{}|{source}", slices.len().min(6), c.deltas, s.refs.len(), s.reads.iter().any(|r| r.is_unmapped() && r.pos.is_some())).as_bytes());
+    if idx % 31 == 0 {
+        o.sample = Some(json!({"case": case_json(c), "slices": exp.iter().map(|e| e.1).collect::<Vec<_>>(), "first_regions": regions.iter().take(4).map(|g| g.render(&s)).collect::<Vec<_>>()}));
+    }
+    o
+}
+
+use noodles_cram::container::compression_header::data_series_encodings::DataSeries;
+const ALL_SERIES: [DataSeries; 28] = [
+    DataSeries::BamFlags,
+    DataSeries::CramFlags,
+    DataSeries::ReferenceSequenceIds,
+    DataSeries::ReadLengths,
+    DataSeries::AlignmentStarts,
+    DataSeries::ReadGroupIds,
+    DataSeries::Names,
+    DataSeries::MateFlags,
+    DataSeries::MateReferenceSequenceIds,
+    DataSeries::MateAlignmentStarts,
+    DataSeries::TemplateLengths,
+    DataSeries::MateDistances,
+    DataSeries::TagSetIds,
+    DataSeries::FeatureCounts,
+    DataSeries::FeatureCodes,
+    DataSeries::FeaturePositionDeltas,
+    DataSeries::DeletionLengths,
+    DataSeries::StretchesOfBases,
+    DataSeries::StretchesOfQualityScores,
+    DataSeries::BaseSubstitutionCodes,
+    DataSeries::InsertionBases,
+    DataSeries::ReferenceSkipLengths,
+    DataSeries::PaddingLengths,
+    DataSeries::HardClipLengths,
+    DataSeries::SoftClipBases,
+    DataSeries::MappingQualities,
+    DataSeries::Bases,
+    DataSeries::QualityScores,
+];
 
 fn main() {
-    eprintln!("c19: not implemented");
-    std::process::exit(2);
+    let ctx = Ctx::from_args();
+    let ctx = vcore::cases::replay_request(&ctx).map(|r| r.1).unwrap_or(ctx);
+    let mut rep = Report::new(
+        "case = one coordinate-sorted generated stream (gencram, 1-4 references, unplaced tail) written with H3 \
+         (3-50 records per slice, one slice per container) to a scratch file, indexed with cram::fs::index, queried with \
+         ~40 regions (whole reference, own span, points at/around span ends, unbounded bounds, same coordinates on another \
+         reference, windows hitting nothing) through IndexedReader::query (index in memory) and Reader::query (index \
+         after crai::fs::write/read); deterministic witnesses + a VERIF_SEED-seeded random part; distinct = distinct \
+         (slice-kind bitmask [single / unmapped / multi-reference], container count capped at 6, position deltas, number \
+         of references, placed unmapped reads present, index source); non-trivial = the file was written and queried",
+    );
+    for a in [
+        "query answers are identified by (read name, first/last segment bits); names are unique per template by construction",
+        "expected answer = records whose reference equals the region's and whose span POS..POS+sum(M/D/N/=/X)-1 (computed by the harness) intersects the region, in file order",
+        "placed unmapped records have no alignment: whether a query returns them is not judged; index spans of slices that contain them are only required to cover the mapped records",
+        "when cram::fs::index fails (violation) the queries of that file run through a stand-in index built from the independent geometry and the expected spans, so the query half of the property is still evaluated",
+        "CRAI byte geometry (container offset, landmark, slice length) is judged by py/cram_walk.py in the post hook; the order of the entries of one multi-reference slice is not judged",
+        "only the layout the production writer emits (one slice per container) is generated",
+    ] {
+        rep.assumptions.push(a.into());
+    }
+    let cases = gen_cases(&ctx);
+    let f = |i: u64| -> CaseOut { run_case(&ctx, i, &cases[i as usize]) };
+    run_cases(&ctx, &mut rep, cases.len() as u64, 120.0, &f, &|i| case_json(&cases[i as usize]));
+    if ctx.replay.is_none() {
+        let counters = rep.counters.clone();
+        let g = |k: &str| counters.get(k).copied().unwrap_or(0);
+        rep.floor("files_written", g("files_written"), cases.len() as u64 * 8 / 10);
+        rep.floor("queries", g("queries"), 2000);
+        rep.floor("queries_with_nonempty_answer", g("queries_with_nonempty_answer"), 500);
+        rep.floor("files_with_multi_reference_slice", g("files_with_multi_reference_slice"), 10);
+        rep.floor("files_with_several_containers", g("files_with_several_containers"), 30);
+        rep.floor("files_with_unplaced_tail", g("files_with_unplaced_tail"), 10);
+    }
+    rep.finish(&ctx);
 }
